@@ -1,7 +1,6 @@
 package route
 
 import (
-	"fmt"
 	"strings"
 	"testing"
 
@@ -415,7 +414,9 @@ func c11Fixed(t *testing.T, rec *ev.Rec, dir string) {
 func TestC11(t *testing.T) {
 	rec := ev.New("C11", "generated BasicRule files in documented syntax (exact / *.suffix / * hosts in mixed case, exact / prefix '/p/*' / * paths, multi-valued Hostname and Path lists, overlapping by construction from small pools) loaded by RouteConfLoad; probes (host, path) derived from the rules (wildcard instantiated with 0/1/2 labels, extra/sibling/glued labels, prefix with/without slash, deeper, glued, shallower, empty, '/'); every probe also goes through LoadServerDataConf + LookupCluster with a :port. non-trivial: the probe satisfies host+path conditions in >=2 different (host class, path class) combinations; distinct by (rule file, host, path)")
 	dir := workDir(t, "C11")
-	c11Fixed(t, rec, dir)
+	if !skipFixed {
+		c11Fixed(t, rec, dir)
+	}
 	nprobe := 40
 	rapid.Check(t, func(rt *rapid.T) {
 		clusters := c11Clusters
@@ -448,5 +449,4 @@ func TestC11(t *testing.T) {
 			c11CheckProbe(rt, rec, l, rules, cfgFP, host, path, hc, pc)
 		}
 	})
-	_ = fmt.Sprint
 }
